@@ -285,3 +285,43 @@ Proof.
   destruct (nth_error (x :: r') (length (x :: r') - 1)) eqn:E; [now eexists|].
   apply nth_error_None in E. cbn [length] in E. lia.
 Qed.
+
+(** * the repaired planner satisfies the full statement *)
+Lemma map_cmds_fixed_words : forall segs cs, map_cmds_fixed segs = inl cs -> existsb no_words cs = false.
+Proof.
+  induction segs as [|seg r IH]; intros cs H; cbn [map_cmds_fixed] in H.
+  - injection H as <-. reflexivity.
+  - destruct (from_tokens seg) as [c|e]; [|discriminate].
+    destruct (no_words c) eqn:N; [discriminate|].
+    destruct (map_cmds_fixed r) as [cs'|e] eqn:E; [|discriminate]. injection H as <-.
+    cbn [existsb]. rewrite N. cbn [orb]. now apply IH.
+Qed.
+
+Theorem plan_fixed_full toks cl : plan_tokens_fixed toks = inl cl ->
+  first_word_lookups false cl = FwSkip \/ first_word_lookups false cl = FwRun [].
+Proof.
+  intro H. apply first_word_exact. unfold plans_empty_command.
+  unfold plan_tokens_fixed in H. destruct (drain_envs toks []) as [envs tk].
+  match type of H with context [map_cmds_fixed ?x] =>
+    destruct (map_cmds_fixed x) as [cs|e] eqn:E; [|discriminate] end.
+  injection H as <-. cbn [cl_cmds]. now apply (map_cmds_fixed_words _ _ E).
+Qed.
+
+(** where the unrepaired planner yields no wordless command, the repair changes nothing *)
+Lemma map_cmds_fixed_same : forall segs cs, map_cmds segs = inl cs -> existsb no_words cs = false ->
+  map_cmds_fixed segs = inl cs.
+Proof.
+  induction segs as [|seg r IH]; intros cs H N; cbn [map_cmds map_cmds_fixed] in *.
+  - now injection H as <-.
+  - destruct (from_tokens seg) as [c|e]; [|discriminate].
+    destruct (map_cmds r) as [cs'|e] eqn:E; [|discriminate]. injection H as <-.
+    cbn [existsb] in N. apply orb_false_iff in N as [N1 N2]. rewrite N1. now rewrite (IH _ eq_refl N2).
+Qed.
+
+Theorem plan_fixed_conservative toks cl : plan_tokens toks = inl cl -> plans_empty_command cl = false ->
+  plan_tokens_fixed toks = inl cl.
+Proof.
+  unfold plan_tokens, plan_tokens_fixed, plans_empty_command. destruct (drain_envs toks []) as [envs tk].
+  match goal with |- context [map_cmds ?x] => destruct (map_cmds x) as [cs|e] eqn:E; [|discriminate] end.
+  intros H N. injection H as <-. cbn [cl_cmds] in N. now rewrite (map_cmds_fixed_same _ _ E N).
+Qed.
